@@ -138,9 +138,9 @@ theorem reprepare_noext_keeps (stmtId : SId) (cur : RMeta) (p : PrepResp) (hm : 
   rw [reprepare_ok _ _ _ h]; simp [prepMeta, hm]
 
 -- non-vacuity: a late0 statement, metadata learnt from an EXECUTE, then re-prepared
-example : reprepare ⟨0, 0⟩ ⟨some "m3", 2, [⟨"a", .int⟩, ⟨"b", .text⟩]⟩ ⟨⟨0, 0⟩, some "mE", true, 0, []⟩
+example : reprepare ⟨"q0", 0⟩ ⟨some "m3", 2, [⟨"a", .int⟩, ⟨"b", .text⟩]⟩ ⟨⟨"q0", 0⟩, some "mE", true, 0, []⟩
     = .ok ⟨some "m3", 2, [⟨"a", .int⟩, ⟨"b", .text⟩]⟩ := by rfl
-example : reprepare ⟨0, 0⟩ ⟨some "mE", 0, []⟩ ⟨⟨0, 0⟩, some "m1", false, 1, [⟨"a", .int⟩]⟩
+example : reprepare ⟨"q0", 0⟩ ⟨some "mE", 0, []⟩ ⟨⟨"q0", 0⟩, some "m1", false, 1, [⟨"a", .int⟩]⟩
     = .ok ⟨some "m1", 1, [⟨"a", .int⟩]⟩ := by rfl
 example : handleNewId ⟨some "m3", 0, []⟩ ⟨some "m3", 1, [⟨"a", .int⟩]⟩ = ⟨some "m3", 1, [⟨"a", .int⟩]⟩ := by decide
 example : cachedParams true false ⟨none, 1, [⟨"a", .int⟩]⟩ = ⟨true, some ⟨none, 1, [⟨"a", .int⟩]⟩, some ""⟩ := by decide
@@ -641,23 +641,26 @@ theorem statement_identity_immutable (xs : List Step) (st : State) (o : Nat) (h 
 
 /-! ## Part A.4 — reachability: statement objects, slots and program counters stay well-formed -/
 
-/-- a statement object was created from a PREPARED answer to `PREPARE q<s>`: its text is `q<s>` and its id names `s` -/
-def ObjOK (o : Stmt) : Prop := ∃ s, s < 8 ∧ o.text = textOf s ∧ o.id.stmt = s
+/-- a statement object was created from a PREPARED answer to a PREPARE of exactly its text: the node knows the text as
+a statement, and the id the object holds was issued for EXACTLY that text (ids are functions of the exact bytes) -/
+def ObjOK (o : Stmt) : Prop := o.id.text = o.text ∧ ∃ s, stmtOfText o.text = some s
 
 /-- program counters only refer to existing statement objects (`n` = number of objects) -/
 def PcOK (n : Nat) : Pc → Prop
   | .idle => True
-  | .fresh slot _ text => text = textOf slot
+  | .fresh _ _ _ => True
   | .exec1 op _ => op.obj < n
   | .execPrep op => op.obj < n
   | .exec2 op _ => op.obj < n
   | .batch op _ => ∀ it ∈ op.items, it.1 < n
   | .batchPrep op _ o => o < n ∧ ∀ it ∈ op.items, it.1 < n
 
+/-- a first preparation in flight: the PREPARE carries the text the caller gave, byte for byte, and a PREPARED answer
+to it names exactly that text -/
 def WireOK (c : Caller) : Prop :=
   match c.pc, c.wire with
   | .fresh _ _ text, .req _ r => r = .prepare text
-  | .fresh _ _ text, .resp (.prepared p) => ∃ s, s < 8 ∧ text = textOf s ∧ p.id.stmt = s
+  | .fresh _ _ text, .resp (.prepared p) => p.id.text = text ∧ ∃ s, stmtOfText text = some s
   | _, _ => True
 
 /-- well-formedness of a reachable state -/
@@ -667,41 +670,25 @@ def WF (st : State) : Prop :=
 
 private theorem PcOK_mono {n m : Nat} (h : n ≤ m) (pc : Pc) (hp : PcOK n pc) : PcOK m pc := by
   cases pc <;> simp only [PcOK] at hp ⊢
-  · exact hp
   · exact Nat.lt_of_lt_of_le hp h
   · exact Nat.lt_of_lt_of_le hp h
   · exact Nat.lt_of_lt_of_le hp h
   · exact fun it hit => Nat.lt_of_lt_of_le (hp it hit) h
   · exact ⟨Nat.lt_of_lt_of_le hp.1 h, fun it hit => Nat.lt_of_lt_of_le (hp.2 it hit) h⟩
 
-private theorem stmtOfTextAux_some (t : String) (n s : Nat) (h : stmtOfTextAux t n = some s) :
-    s < n ∧ t = textOf s := by
-  induction n with
-  | zero => simp [stmtOfTextAux] at h
-  | succ n ih =>
-    simp only [stmtOfTextAux] at h
-    split at h
-    · rename_i heq
-      simp only [Option.some.injEq] at h
-      subst h
-      exact ⟨Nat.lt_succ_self _, (by simpa using heq : textOf n = t).symm⟩
-    · obtain ⟨h1, h2⟩ := ih h
-      exact ⟨Nat.lt_succ_of_lt h1, h2⟩
-
 private theorem serve_prepared_id (n : Node) (t : String) (p : PrepResp) (h : (serve n (.prepare t)).2 = .prepared p) :
-    ∃ s, s < 8 ∧ t = textOf s ∧ p.id.stmt = s := by
+    p.id.text = t ∧ ∃ s, stmtOfText t = some s := by
   simp only [serve] at h
   split at h
   · simp at h
   · rename_i s hs
-    obtain ⟨h1, h2⟩ := stmtOfTextAux_some t 8 s hs
     split at h
     · simp at h
     · split at h
       · simp at h
       · simp only [Resp.prepared.injEq] at h
         subst h
-        exact ⟨s, h1, h2, rfl⟩
+        exact ⟨rfl, s, hs⟩
 
 private theorem resolveItems_lt (slot : Nat → Option Nat) (n : Nat) (hs : ∀ s o, slot s = some o → o < n)
     (items r : List (Nat × List Nat)) (h : resolveItems slot items = some r) : ∀ it ∈ r, it.1 < n := by
@@ -727,8 +714,8 @@ private theorem nObjs_mono_step (st : State) (x : Step) : st.nObjs ≤ (step st 
     omega
 
 private theorem objOK_of_ident {a b : Stmt} (h1 : b.id = a.id) (h2 : b.text = a.text) (h : ObjOK a) : ObjOK b := by
-  obtain ⟨s, hs, ht, hi⟩ := h
-  exact ⟨s, hs, h2.trans ht, by rw [h1]; exact hi⟩
+  obtain ⟨hi, s, hs⟩ := h
+  exact ⟨by rw [h1, h2]; exact hi, s, by rw [h2]; exact hs⟩
 
 /-- `WF` is preserved by every step of every kind. -/
 theorem wf_step (st : State) (x : Step) (hwf : WF st) : WF (step st x).1 := by
@@ -844,7 +831,7 @@ theorem wf_step (st : State) (x : Step) (hwf : WF st) : WF (step st x).1 := by
     | resp resp =>
       by_cases hfresh : ∃ slot node text p, pc = .fresh slot node text ∧ resp = .prepared p
       · obtain ⟨slot, node, text, p, rfl, rfl⟩ := hfresh
-        obtain ⟨s, hs, htx, hps⟩ : ∃ s, s < 8 ∧ text = textOf s ∧ p.id.stmt = s := by
+        obtain ⟨hptext, hknown⟩ : p.id.text = text ∧ ∃ s, stmtOfText text = some s := by
           have := hk.2; simpa [WireOK] using this
         have hst : (step st (.recv k)).1 =
             setCaller { st with objs := upd st.objs st.nObjs ⟨text, p.id, prepMeta p, prepMeta p⟩, nObjs := st.nObjs + 1,
@@ -855,7 +842,7 @@ theorem wf_step (st : State) (x : Step) (hwf : WF st) : WF (step st x).1 := by
         · intro o ho
           simp only [setCaller, upd] at ho ⊢
           split
-          · exact ⟨s, hs, htx, hps⟩
+          · exact ⟨hptext, hknown⟩
           · exact hobjs o (by omega)
         · intro s' o hso
           simp only [setCaller, upd] at hso ⊢
@@ -932,6 +919,82 @@ theorem wf_exec (xs : List Step) (st : State) (hwf : WF st) : WF (exec st xs) :=
   induction xs generalizing st with
   | nil => exact hwf
   | cons x xs ih => exact ih _ (wf_step st x hwf)
+
+/-! ### the statement text is sent exactly as the caller gave it -/
+
+/-- the first preparation: the PREPARE frame carries the text the caller passed to `prepare()`, byte for byte -/
+theorem first_preparation_sends_given_text (st : State) (k slot node : Nat) (text : String)
+    (hidle : st.caller k = ⟨.idle, .none⟩) :
+    start st k (.prepare slot node text) =
+      (setCaller st k ⟨.fresh slot node text, .req node (.prepare text)⟩, .sent node (.prepare text)) := by
+  simp [start, hidle]
+
+/-- … and the statement object created from the PREPARED answer stores exactly that text (it never changes
+afterwards: `statement_identity_immutable`) together with the id the node issued -/
+theorem created_object_keeps_given_text (st : State) (k slot node : Nat) (text : String) (p : PrepResp)
+    (hc : st.caller k = ⟨.fresh slot node text, .resp (.prepared p)⟩) :
+    (recv st k).1.slot slot = some st.nObjs ∧ ((recv st k).1.objs st.nObjs).text = text ∧
+    ((recv st k).1.objs st.nObjs).id = p.id := by
+  simp [recv, hc, finish, setCaller]
+
+/-- `reprepare_sends_original_text`: EVERY PREPARE any step of any history puts on the wire is either a first
+preparation carrying the caller's text, or a re-preparation - after UNPREPARED to an EXECUTE or to a BATCH - carrying
+the stored text of that statement object UNCHANGED (no trimming, no normalisation: a node derives the id from the
+exact bytes, `serve`: `idOf text idv`), to the operation's node. -/
+theorem reprepare_sends_original_text (st : State) (x : Step) (n : Nat) (t : String)
+    (h : (step st x).2 = .sent n (.prepare t)) :
+    (∃ k slot, x = .start k (.prepare slot n t)) ∨
+    (∃ k op cached, x = .recv k ∧ (st.caller k).pc = .exec1 op cached ∧ t = (st.objs op.obj).text ∧ n = op.node) ∨
+    (∃ k op frame o, x = .recv k ∧ (st.caller k).pc = .batch op frame ∧ (∃ v, (o, v) ∈ op.items) ∧
+      t = (st.objs o).text ∧ n = op.node) := by
+  cases x with
+  | event n' e => simp [step, eventStep] at h
+  | serve k => simp only [step, serveStep] at h; split at h <;> simp at h
+  | start k op =>
+    simp only [step, start] at h
+    split at h
+    · cases op with
+      | prepare s n' text =>
+        simp only [Obs.sent.injEq, Req.prepare.injEq] at h
+        obtain ⟨hn, ht⟩ := h
+        subst hn ht
+        exact Or.inl ⟨k, s, rfl⟩
+      | batch a => simp only at h; split at h <;> simp at h
+      | execute a => simp only at h; split at h <;> simp at h
+    · simp at h
+  | recv k =>
+    simp only [step] at h
+    rcases hck : st.caller k with ⟨pc, wire⟩
+    cases wire with
+    | none => simp [recv, hck] at h
+    | req n' r' => simp [recv, hck] at h
+    | resp resp =>
+      cases pc with
+      | idle => simp [recv, hck] at h
+      | fresh s n' t' => cases resp <;> simp [recv, hck, finish] at h
+      | exec2 op c => simp [recv, hck, finish] at h
+      | execPrep op =>
+        cases resp <;> simp only [recv, hck] at h <;> (try split at h) <;> simp [finish, send] at h
+      | batchPrep op f o =>
+        cases resp <;> simp only [recv, hck] at h <;> (try split at h) <;> simp [finish, send] at h
+      | exec1 op c =>
+        cases resp with
+        | unprepared uid =>
+          rw [exec_unprepared_sends_prepare st k op c uid hck] at h
+          simp only [Obs.sent.injEq, Req.prepare.injEq] at h
+          exact Or.inr (Or.inl ⟨k, op, c, rfl, by rw [hck], h.2.symm, h.1.symm⟩)
+        | _ => simp [recv, hck, finish] at h
+      | batch op f =>
+        cases resp with
+        | unprepared id =>
+          simp only [recv, hck] at h
+          split at h
+          · rename_i o ho
+            obtain ⟨hv, _⟩ := findInBatch_some _ _ _ _ ho
+            simp only [send, Obs.sent.injEq, Req.prepare.injEq] at h
+            exact Or.inr (Or.inr ⟨k, op, f, o, rfl, by rw [hck], hv, h.2.symm, h.1.symm⟩)
+          · simp [finish] at h
+        | _ => simp [recv, hck, finish] at h
 
 /-! ## Part B — end to end, under the server assumption
 
@@ -1058,8 +1121,8 @@ theorem serve_plain_execute (n : Node) (r : ExecReq) (hov : n.ov = none) :
 theorem serve_plain_prepare (n : Node) (text : String) (s : Nat) (hov : n.ov = none)
     (hs : stmtOfText text = some s) (hpf : (n.st s).prepFail = false) :
     serve n (.prepare text) =
-      ({ n with prepared := idOf s (n.st s).idv :: n.prepared },
-       .prepared ⟨idOf s (n.st s).idv, if n.ext then some (announcedMid (n.st s).kind (n.st s).smeta) else none,
+      ({ n with prepared := idOf text (n.st s).idv :: n.prepared },
+       .prepared ⟨idOf text (n.st s).idv, if n.ext then some (announcedMid (n.st s).kind (n.st s).smeta) else none,
                   !((n.st s).kind == .normal),
                   if (n.st s).kind == .normal then (n.st s).smeta.cols.length else 0,
                   if (n.st s).kind == .normal then (n.st s).smeta.cols else []⟩) := by
@@ -1602,7 +1665,6 @@ theorem decodeRows_genRows (cols : List Col) (v : Nat) (pageSize : Option Nat) (
     simp only [List.append_nil] at this
     simp [this, decodeRows]
 
-private theorem stmtOfText_textOf : ∀ s, s < 8 → stmtOfText (textOf s) = some s := by decide +kernel
 
 /-- `eviction_resend_any_node`: the first three conjuncts of `eviction_transparent` hold on ANY node, with or without
 the extension: through any interleaving with other callers' steps the node sees PREPARE of the same text, answers
@@ -1612,8 +1674,8 @@ is the F-C14-1 / CQL v4 question.) -/
 theorem eviction_resend_any_node (st0 : State) (hinv : Inv colsOf st0) (k : Nat) (op : ExecOp) (cached : Option RMeta)
     (uid : SId) (s : Nat)
     (hc : st0.caller k = ⟨.exec1 op cached, .resp (.unprepared uid)⟩)
-    (hobj : op.obj < st0.nObjs) (hs : s < 8) (htext : (st0.objs op.obj).text = textOf s)
-    (hid : (st0.objs op.obj).id = idOf s (((st0.node op.node).st s).idv))
+    (hobj : op.obj < st0.nObjs) (txt : String) (hs : stmtOfText txt = some s) (htext : (st0.objs op.obj).text = txt)
+    (hid : (st0.objs op.obj).id = idOf txt (((st0.node op.node).st s).idv))
     (hpf : ((st0.node op.node).st s).prepFail = false)
     (ys0 ys1 ys2 : List Step)
     (h0 : Others k ys0) (h1 : Others k ys1) (h2 : Others k ys2) :
@@ -1623,7 +1685,7 @@ theorem eviction_resend_any_node (st0 : State) (hinv : Inv colsOf st0) (k : Nat)
     let d := serveStep c k
     let e := exec d.1 ys2
     let f := recv e k
-    b.2 = .sent op.node (.prepare (textOf s)) ∧
+    b.2 = .sent op.node (.prepare (txt)) ∧
     (∃ p, d.2 = .served (.prepared p) ∧ p.id = (st0.objs op.obj).id) ∧
     (∃ rq, f.2 = .sent op.node (.execute rq) ∧ rq.id = (st0.objs op.obj).id ∧ rq.values = op.values ∧
         rq.cl = op.cl ∧ rq.scl = op.scl ∧ rq.ts = op.ts ∧ rq.pageSize = op.pageSize ∧ rq.ps = op.ps) := by
@@ -1633,31 +1695,31 @@ theorem eviction_resend_any_node (st0 : State) (hinv : Inv colsOf st0) (k : Nat)
   have inva : Inv colsOf a := inv_exec colsOf ys0 st0 hinv (others_eventsOK colsOf ys0 k h0)
   have hca : a.caller k = ⟨.exec1 op cached, .resp (.unprepared uid)⟩ := by
     rw [show a = exec st0 ys0 from rfl, others_caller ys0 st0 k h0]; exact hc
-  have hta : (a.objs op.obj).text = textOf s := ((fa.ident _ hobj).2).trans htext
+  have hta : (a.objs op.obj).text = txt := ((fa.ident _ hobj).2).trans htext
   -- step b: PREPARE is sent
-  have hb : b = (setCaller a k ⟨.execPrep op, .req op.node (.prepare (textOf s))⟩, .sent op.node (.prepare (textOf s))) := by
+  have hb : b = (setCaller a k ⟨.execPrep op, .req op.node (.prepare (txt))⟩, .sent op.node (.prepare (txt))) := by
     rw [show b = recv a k from rfl, exec_unprepared_sends_prepare a k op cached uid hca, hta]
   have fb : Frame st0 b.1 := by
     rw [hb]; exact ⟨fa.nodeSt, fa.nodeExt, fa.nodeOv, fa.prepared, fa.ident, fa.nObjs⟩
   have invb : Inv colsOf b.1 := by
     have := inv_step colsOf a (.recv k) inva (fun _ _ h => by cases h)
     simpa [step] using this
-  have hcb : b.1.caller k = ⟨.execPrep op, .req op.node (.prepare (textOf s))⟩ := by rw [hb]; simp [setCaller]
+  have hcb : b.1.caller k = ⟨.execPrep op, .req op.node (.prepare (txt))⟩ := by rw [hb]; simp [setCaller]
   -- state c
   have fc : Frame st0 c := fb.trans (others_frame ys1 b.1 k h1)
   have invc : Inv colsOf c := inv_exec colsOf ys1 b.1 invb (others_eventsOK colsOf ys1 k h1)
-  have hcc : c.caller k = ⟨.execPrep op, .req op.node (.prepare (textOf s))⟩ := by
+  have hcc : c.caller k = ⟨.execPrep op, .req op.node (.prepare (txt))⟩ := by
     rw [show c = exec b.1 ys1 from rfl, others_caller ys1 b.1 k h1]; exact hcb
   -- step d: the node prepares
   have hovc : (c.node op.node).ov = none := fc.nodeOv _ (hinv.1 op.node).1
   have hstc : (c.node op.node).st = (st0.node op.node).st := fc.nodeSt _
-  have hserve_c := serve_plain_prepare (c.node op.node) (textOf s) s hovc (stmtOfText_textOf s hs)
+  have hserve_c := serve_plain_prepare (c.node op.node) (txt) s hovc hs
     (by rw [hstc]; exact hpf)
-  have hd : d = ({ c with node := upd c.node op.node (serve (c.node op.node) (.prepare (textOf s))).1,
-                          caller := upd c.caller k { c.caller k with wire := .resp (serve (c.node op.node) (.prepare (textOf s))).2 } },
-                 .served (serve (c.node op.node) (.prepare (textOf s))).2) := by
+  have hd : d = ({ c with node := upd c.node op.node (serve (c.node op.node) (.prepare (txt))).1,
+                          caller := upd c.caller k { c.caller k with wire := .resp (serve (c.node op.node) (.prepare (txt))).2 } },
+                 .served (serve (c.node op.node) (.prepare (txt))).2) := by
     simp [show d = serveStep c k from rfl, serveStep, hcc]
-  let pid : SId := idOf s ((c.node op.node).st s).idv
+  let pid : SId := idOf txt ((c.node op.node).st s).idv
   have hpid : pid = (st0.objs op.obj).id := by rw [hid, ← hstc]
   have fd : Frame c d.1 := by
     have := frame_step c (.serve k) ⟨k, rfl⟩
@@ -1713,8 +1775,8 @@ steps `recv · serve · recv · serve · recv`:
 theorem eviction_transparent (st0 : State) (hinv : Inv colsOf st0) (k : Nat) (op : ExecOp) (cached : Option RMeta)
     (uid : SId) (s : Nat)
     (hc : st0.caller k = ⟨.exec1 op cached, .resp (.unprepared uid)⟩)
-    (hobj : op.obj < st0.nObjs) (hs : s < 8) (htext : (st0.objs op.obj).text = textOf s)
-    (hid : (st0.objs op.obj).id = idOf s (((st0.node op.node).st s).idv))
+    (hobj : op.obj < st0.nObjs) (txt : String) (hs : stmtOfText txt = some s) (htext : (st0.objs op.obj).text = txt)
+    (hid : (st0.objs op.obj).id = idOf txt (((st0.node op.node).st s).idv))
     (hext : (st0.node op.node).ext = true) (hpf : ((st0.node op.node).st s).prepFail = false)
     (ys0 ys1 ys2 ys3 ys4 : List Step)
     (h0 : Others k ys0) (h1 : Others k ys1) (h2 : Others k ys2) (h3 : Others k ys3) (h4 : Others k ys4) :
@@ -1729,7 +1791,7 @@ theorem eviction_transparent (st0 : State) (hinv : Inv colsOf st0) (k : Nat) (op
     let i := exec h.1 ys4
     let j := recv i k
     let cols := ((st0.node op.node).st s).smeta.cols
-    b.2 = .sent op.node (.prepare (textOf s)) ∧
+    b.2 = .sent op.node (.prepare (txt)) ∧
     (∃ p, d.2 = .served (.prepared p) ∧ p.id = (st0.objs op.obj).id) ∧
     (∃ rq, f.2 = .sent op.node (.execute rq) ∧ rq.id = (st0.objs op.obj).id ∧ rq.values = op.values ∧
         rq.cl = op.cl ∧ rq.scl = op.scl ∧ rq.ts = op.ts ∧ rq.pageSize = op.pageSize ∧ rq.ps = op.ps) ∧
@@ -1742,32 +1804,32 @@ theorem eviction_transparent (st0 : State) (hinv : Inv colsOf st0) (k : Nat) (op
   have inva : Inv colsOf a := inv_exec colsOf ys0 st0 hinv (others_eventsOK colsOf ys0 k h0)
   have hca : a.caller k = ⟨.exec1 op cached, .resp (.unprepared uid)⟩ := by
     rw [show a = exec st0 ys0 from rfl, others_caller ys0 st0 k h0]; exact hc
-  have hta : (a.objs op.obj).text = textOf s := ((fa.ident _ hobj).2).trans htext
+  have hta : (a.objs op.obj).text = txt := ((fa.ident _ hobj).2).trans htext
   -- step b: PREPARE is sent
-  have hb : b = (setCaller a k ⟨.execPrep op, .req op.node (.prepare (textOf s))⟩, .sent op.node (.prepare (textOf s))) := by
+  have hb : b = (setCaller a k ⟨.execPrep op, .req op.node (.prepare (txt))⟩, .sent op.node (.prepare (txt))) := by
     rw [show b = recv a k from rfl, exec_unprepared_sends_prepare a k op cached uid hca, hta]
   have fb : Frame st0 b.1 := by
     rw [hb]; exact ⟨fa.nodeSt, fa.nodeExt, fa.nodeOv, fa.prepared, fa.ident, fa.nObjs⟩
   have invb : Inv colsOf b.1 := by
     have := inv_step colsOf a (.recv k) inva (fun _ _ h => by cases h)
     simpa [step] using this
-  have hcb : b.1.caller k = ⟨.execPrep op, .req op.node (.prepare (textOf s))⟩ := by rw [hb]; simp [setCaller]
+  have hcb : b.1.caller k = ⟨.execPrep op, .req op.node (.prepare (txt))⟩ := by rw [hb]; simp [setCaller]
   -- state c
   have fc : Frame st0 c := fb.trans (others_frame ys1 b.1 k h1)
   have invc : Inv colsOf c := inv_exec colsOf ys1 b.1 invb (others_eventsOK colsOf ys1 k h1)
-  have hcc : c.caller k = ⟨.execPrep op, .req op.node (.prepare (textOf s))⟩ := by
+  have hcc : c.caller k = ⟨.execPrep op, .req op.node (.prepare (txt))⟩ := by
     rw [show c = exec b.1 ys1 from rfl, others_caller ys1 b.1 k h1]; exact hcb
   -- step d: the node prepares
   have hovc : (c.node op.node).ov = none := fc.nodeOv _ (hinv.1 op.node).1
   have hstc : (c.node op.node).st = (st0.node op.node).st := fc.nodeSt _
   have hextc : (c.node op.node).ext = true := (fc.nodeExt _).trans hext
-  have hserve_c := serve_plain_prepare (c.node op.node) (textOf s) s hovc (stmtOfText_textOf s hs)
+  have hserve_c := serve_plain_prepare (c.node op.node) (txt) s hovc hs
     (by rw [hstc]; exact hpf)
-  have hd : d = ({ c with node := upd c.node op.node (serve (c.node op.node) (.prepare (textOf s))).1,
-                          caller := upd c.caller k { c.caller k with wire := .resp (serve (c.node op.node) (.prepare (textOf s))).2 } },
-                 .served (serve (c.node op.node) (.prepare (textOf s))).2) := by
+  have hd : d = ({ c with node := upd c.node op.node (serve (c.node op.node) (.prepare (txt))).1,
+                          caller := upd c.caller k { c.caller k with wire := .resp (serve (c.node op.node) (.prepare (txt))).2 } },
+                 .served (serve (c.node op.node) (.prepare (txt))).2) := by
     simp [show d = serveStep c k from rfl, serveStep, hcc]
-  let pid : SId := idOf s ((c.node op.node).st s).idv
+  let pid : SId := idOf txt ((c.node op.node).st s).idv
   have hpid : pid = (st0.objs op.obj).id := by rw [hid, ← hstc]
   have fd : Frame c d.1 := by
     have := frame_step c (.serve k) ⟨k, rfl⟩
@@ -1816,8 +1878,8 @@ theorem eviction_transparent (st0 : State) (hinv : Inv colsOf st0) (k : Nat) (op
   have hprepg : (g.node op.node).prepared.contains rq.id = true := by
     rw [hrqid, ← hpid]; exact fdg.prepared _ _ hprepd
   have hlook : lookupId rq.id (g.node op.node).prepared = some s := by
-    have hst : rq.id.stmt = s := by rw [hrqid, hid]; rfl
-    simp only [lookupId, hprepg, ↓reduceIte, hst]
+    have hst : rq.id.text = txt := by rw [hrqid, hid]; rfl
+    simp only [lookupId, hprepg, ↓reduceIte, hst, hs]
   -- step h: the node answers with rows
   have hserve_g := serve_plain_execute (g.node op.node) rq hovg
   rw [hlook] at hserve_g
@@ -1866,18 +1928,18 @@ theorem eviction_transparent (st0 : State) (hinv : Inv colsOf st0) (k : Nat) (op
   · rw [show j = recv i k from rfl, hj]; simp [setCaller]
 
 /-- `eviction_transparent` with its per-state hypotheses about the statement object DERIVED from reachability
-(`WF`, preserved by every step: `wf_exec`): the object exists, its text is `q<s>` for the statement `s` its id names.
-What remains a hypothesis is the situation itself: the node still assigns that id (no id change since), can prepare
-the statement, and has the extension. -/
+(`WF`, preserved by every step: `wf_exec`): the object exists and the id it holds was issued for EXACTLY its text.
+What remains a hypothesis is the situation itself: which statement `s` the node takes that text for, that the node
+still assigns the same id version (no id change since), can prepare the statement, and has the extension. -/
 theorem eviction_transparent_reachable (st0 : State) (hinv : Inv colsOf st0) (hwf : WF st0) (k : Nat) (op : ExecOp)
-    (cached : Option RMeta) (uid : SId)
+    (cached : Option RMeta) (uid : SId) (s : Nat)
     (hc : st0.caller k = ⟨.exec1 op cached, .resp (.unprepared uid)⟩)
-    (hver : (st0.objs op.obj).id.ver = ((st0.node op.node).st (st0.objs op.obj).id.stmt).idv)
+    (hs : stmtOfText (st0.objs op.obj).text = some s)
+    (hver : (st0.objs op.obj).id.ver = ((st0.node op.node).st s).idv)
     (hext : (st0.node op.node).ext = true)
-    (hpf : ((st0.node op.node).st (st0.objs op.obj).id.stmt).prepFail = false)
+    (hpf : ((st0.node op.node).st s).prepFail = false)
     (ys0 ys1 ys2 ys3 ys4 : List Step)
     (h0 : Others k ys0) (h1 : Others k ys1) (h2 : Others k ys2) (h3 : Others k ys3) (h4 : Others k ys4) :
-    let s := (st0.objs op.obj).id.stmt
     let j := recv (exec (serveStep (exec (recv (exec (serveStep (exec (recv (exec st0 ys0) k).1 ys1) k).1 ys2) k).1 ys3) k).1 ys4) k
     let cols := ((st0.node op.node).st s).smeta.cols
     (∃ m more, j.2 = .done (.rows m (some (typedRows cols (op.values.headD 0) op.pageSize op.ps)) more) ∧ m.cols = cols) ∧
@@ -1885,14 +1947,13 @@ theorem eviction_transparent_reachable (st0 : State) (hinv : Inv colsOf st0) (hw
   have hpc : PcOK st0.nObjs (st0.caller k).pc := (hwf.2.2 k).1
   rw [hc] at hpc
   have hobj : op.obj < st0.nObjs := hpc
-  obtain ⟨s, hs, htext, hst⟩ := hwf.1 op.obj hobj
-  have hid : (st0.objs op.obj).id = idOf s (((st0.node op.node).st s).idv) := by
+  have hidt : (st0.objs op.obj).id.text = (st0.objs op.obj).text := (hwf.1 op.obj hobj).1
+  have hid : (st0.objs op.obj).id = idOf (st0.objs op.obj).text (((st0.node op.node).st s).idv) := by
     cases hi : (st0.objs op.obj).id with
-    | mk a b => rw [hi] at hst hver; simp only at hst hver; subst hst; rw [hver]; rfl
-  have := eviction_transparent colsOf st0 hinv k op cached uid s hc hobj hs htext hid hext (hst ▸ hpf)
+    | mk a b => rw [hi] at hidt hver; simp only at hidt hver; rw [← hidt, ← hver]; rfl
+  have := eviction_transparent colsOf st0 hinv k op cached uid s hc hobj _ hs rfl hid hext hpf
     ys0 ys1 ys2 ys3 ys4 h0 h1 h2 h3 h4
   simp only at this
-  rw [hst]
   exact ⟨this.2.2.2.1, this.2.2.2.2⟩
 
 /-- "the re-sent EXECUTE equals the FIRST one": the operation record `op` that `eviction_transparent` /
@@ -1916,11 +1977,12 @@ to the re-sent EXECUTE: it differs from the FIRST frame at most in the skip flag
 theorem resent_execute_equals_first_frame (st : State) (hinv : Inv colsOf st) (hwf : WF st) (k : Nat) (a : ExecArgs)
     (o : Nat) (hidle : st.caller k = ⟨.idle, .none⟩) (hslot : st.slot a.slot = some o)
     (ysA ys0 ys1 ys2 : List Step) (hA : Others k ysA) (h0 : Others k ys0) (h1 : Others k ys1) (h2 : Others k ys2)
-    (uid : SId)
+    (uid : SId) (s : Nat)
     (hun : (serveStep (exec (start st k (.execute a)).1 ysA) k).2 = .served (.unprepared uid))
     (hver : ∀ stU, stU = (serveStep (exec (start st k (.execute a)).1 ysA) k).1 →
-      (stU.objs o).id.ver = ((stU.node a.node).st (stU.objs o).id.stmt).idv ∧
-      ((stU.node a.node).st (stU.objs o).id.stmt).prepFail = false) :
+      stmtOfText (stU.objs o).text = some s ∧
+      (stU.objs o).id.ver = ((stU.node a.node).st s).idv ∧
+      ((stU.node a.node).st s).prepFail = false) :
     ∃ r1 rq, (start st k (.execute a)).2 = .sent a.node (.execute r1) ∧
       (recv (exec (serveStep (exec (recv (exec (serveStep (exec (start st k (.execute a)).1 ysA) k).1 ys0) k).1 ys1) k).1 ys2) k).2
         = .sent a.node (.execute rq) ∧ SameButMetadata r1 rq := by
@@ -1950,14 +2012,14 @@ theorem resent_execute_equals_first_frame (st : State) (hinv : Inv colsOf st) (h
   have hpc : PcOK stU.nObjs (stU.caller k).pc := (hwfU.2.2 k).1
   rw [hcU] at hpc
   have hobj : op.obj < stU.nObjs := hpc
-  obtain ⟨s, hs, htext, hst⟩ := hwfU.1 op.obj hobj
-  obtain ⟨hv1, hv2⟩ := hver stU rfl
-  rw [← hobjo] at hv1 hv2
+  have hidt : (stU.objs op.obj).id.text = (stU.objs op.obj).text := (hwfU.1 op.obj hobj).1
+  obtain ⟨hs, hv1, hv2⟩ := hver stU rfl
+  rw [← hobjo] at hs hv1
   rw [← hnode] at hv1 hv2
-  have hid : (stU.objs op.obj).id = idOf s (((stU.node op.node).st s).idv) := by
+  have hid : (stU.objs op.obj).id = idOf (stU.objs op.obj).text (((stU.node op.node).st s).idv) := by
     cases hi : (stU.objs op.obj).id with
-    | mk x y => rw [hi] at hst hv1; simp only at hst hv1; subst hst; rw [hv1]; rfl
-  have hres := eviction_resend_any_node colsOf stU hinvU k op cached uid s hcU hobj hs htext hid (hst ▸ hv2)
+    | mk x y => rw [hi] at hidt hv1; simp only at hidt hv1; rw [← hidt, ← hv1]; rfl
+  have hres := eviction_resend_any_node colsOf stU hinvU k op cached uid s hcU hobj _ hs rfl hid hv2
     ys0 ys1 ys2 h0 h1 h2
   simp only at hres
   obtain ⟨_, _, rq, hrq, hrqid, hrv, hrcl, hrscl, hrts, hrpg, hrps⟩ := hres
@@ -2010,8 +2072,8 @@ theorem batch_round_reprepares_named_statement (st0 : State) (k : Nat) (op : Bat
     (hc : st0.caller k = ⟨.batch op frame, .resp (.unprepared id)⟩)
     (hitems : ∀ it ∈ op.items, it.1 < st0.nObjs)
     (hfind : findInBatch st0.objs id op.items = some o)
-    (hs : s < 8) (htext : (st0.objs o).text = textOf s)
-    (hid : (st0.objs o).id = idOf s (((st0.node op.node).st s).idv))
+    (txt : String) (hs : stmtOfText txt = some s) (htext : (st0.objs o).text = txt)
+    (hid : (st0.objs o).id = idOf txt (((st0.node op.node).st s).idv))
     (hov : (st0.node op.node).ov = none) (hpf : ((st0.node op.node).st s).prepFail = false)
     (ys0 ys1 ys2 : List Step) (h0 : Others k ys0) (h1 : Others k ys1) (h2 : Others k ys2) :
     let a := exec st0 ys0
@@ -2020,7 +2082,7 @@ theorem batch_round_reprepares_named_statement (st0 : State) (k : Nat) (op : Bat
     let d := serveStep c k
     let e := exec d.1 ys2
     let f := recv e k
-    b.2 = .sent op.node (.prepare (textOf s)) ∧
+    b.2 = .sent op.node (.prepare (txt)) ∧
     (∃ p, d.2 = .served (.prepared p) ∧ p.id = id) ∧
     f.2 = .sent op.node (.batch frame) ∧
     f.1.caller k = ⟨.batch op frame, .req op.node (.batch frame)⟩ ∧
@@ -2033,25 +2095,25 @@ theorem batch_round_reprepares_named_statement (st0 : State) (k : Nat) (op : Bat
     rw [show a = exec st0 ys0 from rfl, others_caller ys0 st0 k h0]; exact hc
   have hfa : findInBatch a.objs id op.items = some o := by
     rw [findInBatch_congr st0.objs a.objs id op.items (fun it hit => (fa.ident _ (hitems it hit)).1)]; exact hfind
-  have hta : (a.objs o).text = textOf s := ((fa.ident _ hobj).2).trans htext
-  have hb : b = (setCaller a k ⟨.batchPrep op frame o, .req op.node (.prepare (textOf s))⟩,
-                 .sent op.node (.prepare (textOf s))) := by
+  have hta : (a.objs o).text = txt := ((fa.ident _ hobj).2).trans htext
+  have hb : b = (setCaller a k ⟨.batchPrep op frame o, .req op.node (.prepare (txt))⟩,
+                 .sent op.node (.prepare (txt))) := by
     simp [show b = recv a k from rfl, recv, hca, hfa, send, hta]
   have fb : Frame st0 b.1 := by
     rw [hb]; exact ⟨fa.nodeSt, fa.nodeExt, fa.nodeOv, fa.prepared, fa.ident, fa.nObjs⟩
-  have hcb : b.1.caller k = ⟨.batchPrep op frame o, .req op.node (.prepare (textOf s))⟩ := by rw [hb]; simp [setCaller]
+  have hcb : b.1.caller k = ⟨.batchPrep op frame o, .req op.node (.prepare (txt))⟩ := by rw [hb]; simp [setCaller]
   have fc : Frame st0 c := fb.trans (others_frame ys1 b.1 k h1)
-  have hcc : c.caller k = ⟨.batchPrep op frame o, .req op.node (.prepare (textOf s))⟩ := by
+  have hcc : c.caller k = ⟨.batchPrep op frame o, .req op.node (.prepare (txt))⟩ := by
     rw [show c = exec b.1 ys1 from rfl, others_caller ys1 b.1 k h1]; exact hcb
   have hovc : (c.node op.node).ov = none := fc.nodeOv _ hov
   have hstc : (c.node op.node).st = (st0.node op.node).st := fc.nodeSt _
-  have hserve_c := serve_plain_prepare (c.node op.node) (textOf s) s hovc (stmtOfText_textOf s hs)
+  have hserve_c := serve_plain_prepare (c.node op.node) (txt) s hovc hs
     (by rw [hstc]; exact hpf)
-  have hd : d = ({ c with node := upd c.node op.node (serve (c.node op.node) (.prepare (textOf s))).1,
-                          caller := upd c.caller k { c.caller k with wire := .resp (serve (c.node op.node) (.prepare (textOf s))).2 } },
-                 .served (serve (c.node op.node) (.prepare (textOf s))).2) := by
+  have hd : d = ({ c with node := upd c.node op.node (serve (c.node op.node) (.prepare (txt))).1,
+                          caller := upd c.caller k { c.caller k with wire := .resp (serve (c.node op.node) (.prepare (txt))).2 } },
+                 .served (serve (c.node op.node) (.prepare (txt))).2) := by
     simp [show d = serveStep c k from rfl, serveStep, hcc]
-  let pid : SId := idOf s ((c.node op.node).st s).idv
+  let pid : SId := idOf txt ((c.node op.node).st s).idv
   have hpid : pid = id := by rw [← hoid, hid, ← hstc]
   have fd : Frame c d.1 := by
     have := frame_step c (.serve k) ⟨k, rfl⟩
@@ -2088,8 +2150,8 @@ theorem batch_eviction_transparent (st0 : State) (k : Nat) (op : BatchOp) (frame
     (hc : st0.caller k = ⟨.batch op frame, .resp (.unprepared id)⟩)
     (hitems : ∀ it ∈ op.items, it.1 < st0.nObjs)
     (hfind : findInBatch st0.objs id op.items = some o)
-    (hs : s < 8) (htext : (st0.objs o).text = textOf s)
-    (hid : (st0.objs o).id = idOf s (((st0.node op.node).st s).idv))
+    (txt : String) (hs : stmtOfText txt = some s) (htext : (st0.objs o).text = txt)
+    (hid : (st0.objs o).id = idOf txt (((st0.node op.node).st s).idv))
     (hov : (st0.node op.node).ov = none) (hpf : ((st0.node op.node).st s).prepFail = false)
     (hrest : ∀ e ∈ frame.stmts, e.1 = id ∨ (st0.node op.node).prepared.contains e.1 = true)
     (ys0 ys1 ys2 ys3 ys4 : List Step)
@@ -2101,7 +2163,7 @@ theorem batch_eviction_transparent (st0 : State) (k : Nat) (op : BatchOp) (frame
     let j := recv i k
     f.2 = .sent op.node (.batch frame) ∧ h.2 = .served .void ∧ j.2 = .done .void ∧ j.1.caller k = ⟨.idle, .none⟩ := by
   intro f g h i j
-  obtain ⟨_, _, hf2, hcf, ff, hprepf⟩ := batch_round_reprepares_named_statement st0 k op frame id o s hc hitems hfind hs
+  obtain ⟨_, _, hf2, hcf, ff, hprepf⟩ := batch_round_reprepares_named_statement st0 k op frame id o s hc hitems hfind txt hs
     htext hid hov hpf ys0 ys1 ys2 h0 h1 h2
   have fg : Frame f.1 g := others_frame ys3 f.1 k h3
   have hcg : g.caller k = ⟨.batch op frame, .req op.node (.batch frame)⟩ := by
@@ -2345,6 +2407,9 @@ theorem noext_current_is_announced_at_preparation (xs : List Step) (st : State) 
 
 /-! ## non-vacuity: a concrete cluster satisfies the invariants and produces the histories the theorems talk about -/
 
+/-- how the caller writes statement 0 in the examples: surrounded by whitespace and newlines (`textV 0 3`) -/
+def exText : String := "\n  q0\t \n"
+
 def exCols : Id → List Col
   | "m1" => [⟨"a", .int⟩]
   | "m3" => [⟨"a", .int⟩, ⟨"b", .text⟩]
@@ -2353,7 +2418,7 @@ def exCols : Id → List Col
 def exNode (ext : Bool) : Node := ⟨ext, false, [], fun _ => ⟨0, ⟨"m1", [⟨"a", .int⟩]⟩, .normal, false⟩, false, none⟩
 
 def exState (ext : Bool) : State :=
-  { objs := fun _ => ⟨"", ⟨0, 0⟩, RMeta.empty, RMeta.empty⟩, nObjs := 0, slot := fun _ => none,
+  { objs := fun _ => ⟨"", ⟨"", 0⟩, RMeta.empty, RMeta.empty⟩, nObjs := 0, slot := fun _ => none,
     node := fun _ => exNode ext, caller := fun _ => ⟨.idle, .none⟩, tsCtr := 0 }
 
 theorem exState_inv : Inv exCols (exState true) :=
@@ -2369,18 +2434,18 @@ example : EventsOK exCols [.event 0 (.schemaChange 0 ⟨"m3", [⟨"a", .int⟩, 
 /-- prepare, execute (metadata skipped), schema change + eviction, execute: UNPREPARED, PREPARE, the same EXECUTE
 with the NEW metadata id, rows without metadata decoded with the new columns -/
 def exHistory : List Step :=
-  [.start 0 (.prepare 0 0), .serve 0, .recv 0,
+  [.start 0 (.prepare 0 0 exText), .serve 0, .recv 0,
    .start 0 (.execute ⟨0, 0, false, 6, none, none, none, none, [7]⟩), .serve 0, .recv 0,
    .event 0 (.schemaChange 0 ⟨"m3", [⟨"a", .int⟩, ⟨"b", .text⟩]⟩), .event 0 (.evict 0),
    .start 0 (.execute ⟨0, 0, false, 6, some 8, some 42, none, none, [8, 9]⟩), .serve 0, .recv 0, .serve 0, .recv 0,
    .serve 0, .recv 0]
 
 example : (run (exState true) exHistory).2.drop 8 =
-    [.sent 0 (.execute ⟨⟨0, 0⟩, some "m1", true, [8, 9], 6, some 8, some 42, none, none⟩),
-     .served (.unprepared ⟨0, 0⟩),
-     .sent 0 (.prepare "q0"),
-     .served (.prepared ⟨⟨0, 0⟩, some "m3", false, 2, [⟨"a", .int⟩, ⟨"b", .text⟩]⟩),
-     .sent 0 (.execute ⟨⟨0, 0⟩, some "m3", true, [8, 9], 6, some 8, some 42, none, none⟩),
+    [.sent 0 (.execute ⟨⟨exText, 0⟩, some "m1", true, [8, 9], 6, some 8, some 42, none, none⟩),
+     .served (.unprepared ⟨exText, 0⟩),
+     .sent 0 (.prepare exText),
+     .served (.prepared ⟨⟨exText, 0⟩, some "m3", false, 2, [⟨"a", .int⟩, ⟨"b", .text⟩]⟩),
+     .sent 0 (.execute ⟨⟨exText, 0⟩, some "m3", true, [8, 9], 6, some 8, some 42, none, none⟩),
      .served (.rows ⟨true, none, 2, [], none, ⟨2, [.int 800, .text "s8r0c1", .int 810, .text "s8r1c1"]⟩⟩),
      .done (.rows ⟨some "m3", 2, [⟨"a", .int⟩, ⟨"b", .text⟩]⟩
        (some [[.int 800, .text "733872306331"], [.int 810, .text "733872316331"]]) none)] := by
@@ -2392,8 +2457,8 @@ example :
     let st := exec (exState true) (exHistory.take 10)
     Inv exCols st ∧
     st.caller 0 = ⟨.exec1 ⟨0, 0, false, 6, some 8, some 42, none, none, [8, 9]⟩ (some ⟨some "m1", 1, [⟨"a", .int⟩]⟩),
-                   .resp (.unprepared ⟨0, 0⟩)⟩ ∧
-    (0 : Nat) < st.nObjs ∧ (st.objs 0).text = textOf 0 ∧ (st.objs 0).id = idOf 0 (((st.node 0).st 0).idv) ∧
+                   .resp (.unprepared ⟨exText, 0⟩)⟩ ∧
+    (0 : Nat) < st.nObjs ∧ stmtOfText (st.objs 0).text = some 0 ∧ (st.objs 0).text = exText ∧ (st.objs 0).id = idOf exText (((st.node 0).st 0).idv) ∧
     (st.node 0).ext = true ∧ ((st.node 0).st 0).prepFail = false :=
   ⟨inv_exec exCols _ _ exState_inv (by simp [exHistory, EventsOK, EventOK, exCols]),
    by decide +kernel, by decide +kernel, by decide +kernel, by decide +kernel, by decide +kernel, by decide +kernel⟩
@@ -2403,22 +2468,22 @@ theorem exState_wf (ext : Bool) : WF (exState ext) :=
 
 /-- a batch of two executions of statement 0, evicted: UNPREPARED in flight -/
 def exBatchHistory : List Step :=
-  [.start 0 (.prepare 0 0), .serve 0, .recv 0, .event 0 (.evict 0),
+  [.start 0 (.prepare 0 0 exText), .serve 0, .recv 0, .event 0 (.evict 0),
    .start 0 (.batch ⟨0, 6, some 8, some 5, [(0, [1]), (0, [2])]⟩), .serve 0]
 
 /-- `batch_round_reprepares_named_statement` / `batch_eviction_transparent` are not vacuous -/
 example :
     let st := exec (exState true) exBatchHistory
-    let frame : BatchReq := ⟨[(⟨0, 0⟩, [1]), (⟨0, 0⟩, [2])], 6, some 8, some 5⟩
-    st.caller 0 = ⟨.batch ⟨0, 6, some 8, some 5, [(0, [1]), (0, [2])]⟩ frame, .resp (.unprepared ⟨0, 0⟩)⟩ ∧
+    let frame : BatchReq := ⟨[(⟨exText, 0⟩, [1]), (⟨exText, 0⟩, [2])], 6, some 8, some 5⟩
+    st.caller 0 = ⟨.batch ⟨0, 6, some 8, some 5, [(0, [1]), (0, [2])]⟩ frame, .resp (.unprepared ⟨exText, 0⟩)⟩ ∧
     (∀ it ∈ [((0 : Nat), [1]), (0, [2])], it.1 < st.nObjs) ∧
-    findInBatch st.objs ⟨0, 0⟩ [(0, [1]), (0, [2])] = some 0 ∧
-    (st.objs 0).text = textOf 0 ∧ (st.objs 0).id = idOf 0 (((st.node 0).st 0).idv) ∧
+    findInBatch st.objs ⟨exText, 0⟩ [(0, [1]), (0, [2])] = some 0 ∧
+    stmtOfText (st.objs 0).text = some 0 ∧ (st.objs 0).text = exText ∧ (st.objs 0).id = idOf exText (((st.node 0).st 0).idv) ∧
     (st.node 0).ov = none ∧ ((st.node 0).st 0).prepFail = false ∧
-    (∀ e ∈ frame.stmts, e.1 = (⟨0, 0⟩ : SId) ∨ (st.node 0).prepared.contains e.1 = true) ∧
+    (∀ e ∈ frame.stmts, e.1 = (⟨exText, 0⟩ : SId) ∨ (st.node 0).prepared.contains e.1 = true) ∧
     WF st :=
   ⟨by decide +kernel, by decide +kernel, by decide +kernel, by decide +kernel, by decide +kernel, by decide +kernel,
-   by decide +kernel, by decide +kernel, wf_exec _ _ (exState_wf true)⟩
+   by decide +kernel, by decide +kernel, by decide +kernel, wf_exec _ _ (exState_wf true)⟩
 
 /-! ## F-C14-1: what is FALSE of the current code, and the part that holds
 
@@ -2435,7 +2500,7 @@ node, ALTER, eviction, execute (known finding F-C14-1; the harness replays it ag
 corpus/C14/scenarios.case). -/
 
 def f1History : List Step :=
-  [.start 0 (.prepare 0 0), .serve 0, .recv 0,
+  [.start 0 (.prepare 0 0 exText), .serve 0, .recv 0,
    .event 0 (.schemaChange 0 ⟨"m3", [⟨"a", .int⟩, ⟨"b", .text⟩]⟩), .event 0 (.evict 0),
    .start 0 (.execute ⟨0, 0, true, 6, none, none, none, none, [5]⟩), .serve 0, .recv 0, .serve 0, .recv 0,
    .serve 0, .recv 0]
@@ -2445,9 +2510,9 @@ the rows are then sent without metadata in that layout, and the caller's result 
 decode fails: `none`) -/
 theorem most_recent_announcement_not_used_without_extension :
     (run (exState false) f1History).2.drop 7 =
-      [.sent 0 (.prepare "q0"),
-       .served (.prepared ⟨⟨0, 0⟩, none, false, 2, [⟨"a", .int⟩, ⟨"b", .text⟩]⟩),
-       .sent 0 (.execute ⟨⟨0, 0⟩, none, true, [5], 6, none, none, none, none⟩),
+      [.sent 0 (.prepare exText),
+       .served (.prepared ⟨⟨exText, 0⟩, none, false, 2, [⟨"a", .int⟩, ⟨"b", .text⟩]⟩),
+       .sent 0 (.execute ⟨⟨exText, 0⟩, none, true, [5], 6, none, none, none, none⟩),
        .served (.rows ⟨true, none, 2, [], none, ⟨2, [.int 500, .text "s5r0c1", .int 510, .text "s5r1c1"]⟩⟩),
        .done (.rows ⟨none, 1, [⟨"a", .int⟩]⟩ none none)] := by
   decide +kernel
